@@ -22,7 +22,8 @@
 (*               newEnvironment from a configuration store holding the      *)
 (*               level-0 defaults / vars cells and a request holding the    *)
 (*               level-0 user vars: <<0, "E", GlobalDefaults[k],             *)
-(*               GlobalVars[k], UserVars[k], BaseConfigStack[k]>>            *)
+(*               GlobalVars[k], UserVars[k], BaseConfigStack[k],             *)
+(*               Environment.GetKV("", k) with the loaded workflow attached>> *)
 (* cs = ConsolidatedVarStack()[k]; h = k in the stack of template stage     *)
 (* 0..5 (hook point vs.stage); cm = ConsolidatedVarMaps(); s = a field of   *)
 (* the role rendered at stage 1..5 whose template is a reference to k.      *)
@@ -122,13 +123,16 @@ RoleViol(c, scn, e, ex) ==
 \* --- the environment level itself (record <<0, "E", defaults, vars, user vars, base config stack>>):
 \* what the environment's own three maps answer for k - each kind on its own: the configuration
 \* store's defaults are not vars - and the base config stack (store vars over store defaults)
-EnvViol(c, scn, e) ==
+\* and the environment-level lookup Environment.GetKV("", k): what the workflow's root role resolves
+\* (res1), the empty string when nothing defines k - an empty winning definition stays empty
+EnvViol(c, scn, e, res1) ==
   LET exp == <<0, "E", Raw(c, "k", 0, 0), Raw(c, "k", 0, 1), Raw(c, "k", 0, 2),
-               Over(Raw(c, "k", 0, 1), Raw(c, "k", 0, 0))>>
+               Over(Raw(c, "k", 0, 1), Raw(c, "k", 0, 0)), LookupOf(res1)>>
   IN IF e = exp THEN 0
      ELSE IF Len(e) # Len(exp) THEN Soft("Shape", scn, FALSE, <<0, "E", Len(e), Len(exp)>>)
      ELSE SumSeq([j \in 1..Len(e) |->
-                    IF j <= 2 THEN 0 ELSE Soft("EnvLevel", scn, e[j] = exp[j], <<0, "E", j, e[j], exp[j]>>)])
+                    IF j <= 2 THEN 0
+                    ELSE Soft(IF j = 7 THEN "EnvLookup" ELSE "EnvLevel", scn, e[j] = exp[j], <<0, "E", j, e[j], exp[j]>>)])
 
 \* --- after a runtime write (record <<level, "R", variant, instance, ConsolidatedVarStack[k],
 \* ConsolidatedVarMaps user vars [k], "ret" of an instance-2 call role>>): the written role and what
@@ -183,7 +187,7 @@ TCase ==
        /\ nviol' = nviol
             + Soft("FailsIffInvisible", Line.scn, (Line.err # "") <=> Fails(c), <<Line.err, Fails(c)>>)
             + SumSeq([i \in 1..Len(Line.r) |->
-                        IF Line.r[i][2] = "E" THEN EnvViol(c, Line.scn, Line.r[i])
+                        IF Line.r[i][2] = "E" THEN EnvViol(c, Line.scn, Line.r[i], Ex[1][1])
                         ELSE IF Line.r[i][2] = "R" THEN RtViol(c, Line.rt, Line.scn, Line.r[i])
                         ELSE RoleViol(c, Line.scn, Line.r[i], Ex[Line.r[i][1]])])
   /\ l' = l + 1 /\ UNCHANGED <<first, last>>
